@@ -84,6 +84,8 @@ type capLogger struct {
 // log records of handleMessage are the scheduling points at which a second frame is
 // interleaved (readLoop handles every received frame in its own goroutine).
 type parker struct {
+	race    atomic.Bool  // two frames at once: rendezvous at the "Handle message" record
+	arrived atomic.Int32
 	armed   atomic.Bool
 	k       atomic.Int32
 	parked  chan struct{}
@@ -130,14 +132,39 @@ func (l capLogger) Log(_ context.Context, _ log.Level, msg string, attrs ...log.
 		}
 		return
 	}
+	if msg == "Got future salts" {
+		// emitted by handleFutureSalts right after c.salts.Store: the final content of the store is
+		// not a faithful observable (a later new_session_created runs updateSalt, which drops expired salts)
+		l.rec.add(event{Kind: "salts"})
+	}
 	if msg == "Received ack" {
 		if v, ok := get("msg_ids"); ok {
 			ids, _ := v.Any().([]int64)
 			l.rec.add(event{Kind: "acks", IDs: append([]int64{}, ids...)})
 		}
 	}
+	if l.park != nil && msg == "Handle message" && l.park.race.Load() {
+		rendezvous(&l.park.arrived)
+	}
 	l.park.hit()
 }
+
+// rendezvous: spin barrier for two goroutines (bounded, so that a frame whose partner never
+// arrives -- or a nested handleMessage -- is not blocked).
+func rendezvous(n *atomic.Int32) {
+	if n.Add(1) > 2 {
+		return
+	}
+	for t0 := time.Now(); n.Load() < 2 && time.Since(t0) < 20*time.Millisecond; {
+	}
+	if n.Load() >= 2 {
+		metCount.Add(1) // both goroutines were released together (counted twice per meeting)
+	}
+}
+
+// metCount counts successful rendezvous; the raced stream runs until enough of them happened,
+// so that a loaded machine (where the partner often arrives too late) gets more rounds.
+var metCount atomic.Int64
 
 type handler struct {
 	rec     *recorder
@@ -289,14 +316,14 @@ func runCase(in *caseIn) caseOut {
 		// frame A runs until its ParkAt-th log record, frame B runs to completion, A resumes;
 		// or (Race) both run at once and meet at the entry of the engine's result handler
 		if in.Race {
+			// first rendezvous at the "Handle message" record of both frames, second (frames that
+			// reach the rpc engine's handler for RaceID) at the engine's handler entry
+			pk.race.Store(true)
 			var arrived atomic.Int32
 			target := in.RaceID
 			verifhook.Set(func(point string, key int64) {
-				if point != "rpc.handler.enter" || key != target {
-					return
-				}
-				arrived.Add(1)
-				for t0 := time.Now(); arrived.Load() < 2 && time.Since(t0) < 50*time.Millisecond; {
+				if point == "rpc.handler.enter" && key == target {
+					rendezvous(&arrived)
 				}
 			})
 			defer verifhook.Set(nil)
@@ -346,7 +373,7 @@ func runCase(in *caseIn) caseOut {
 	out.events = append([]event{}, rec.events...)
 	rec.mu.Unlock()
 	// requests whose handler ran complete on their own; give them time, then cancel the rest
-	deadline := time.Now().Add(3 * time.Second)
+	deadline := time.Now().Add(30 * time.Second)
 	for _, e := range out.events {
 		if !e.Matched {
 			continue
@@ -377,7 +404,15 @@ func runCase(in *caseIn) caseOut {
 		default:
 		}
 	}
-	_, out.salts = conn.VerifSalts().Get(time.Unix(-1<<40, 0))
+	kept := out.events[:0:0]
+	for _, e := range out.events {
+		if e.Kind == "salts" {
+			out.salts = true
+			continue
+		}
+		kept = append(kept, e)
+	}
+	out.events = kept
 	for i := range out.events {
 		e := &out.events[i]
 		if e.Kind == "error" && e.Matched {
@@ -1028,25 +1063,60 @@ func interleaved(r *hx.Rand) *caseIn {
 		ParkAt: r.Range(1, 4), Stream: "interleaved", Pending: []int64{x, y}, Truth: []truth{ta, tb}}
 }
 
-// raced: the same notification for ONE pending request arrives in two frames that readLoop
-// would handle in two goroutines at once (a re-sent rpc_result, or a result and a bad_msg).
+// raced: two service frames of the same kind, about the same subject, that readLoop would
+// handle in two goroutines at once (a re-sent rpc_result, a repeated new_session_created, pong,
+// future_salts, bad_server_salt, msgs_ack ...). Both goroutines are released together at their
+// "Handle message" record and, where they reach it, again at the rpc engine's handler entry.
 func raced(r *hx.Rand) *caseIn {
 	x := (int64(r.U64()) &^ 3) | 4
-	body := enc(&tg.User{ID: x, FirstName: string(r.Bytes(r.Range(1, 20)))})
-	res := enc(&proto.Result{RequestMessageID: x, Result: body})
-	var b []byte
-	switch r.Intn(4) {
-	case 0:
-		b = enc(&mt.BadMsgNotification{BadMsgID: x, BadMsgSeqno: 1, ErrorCode: 35})
-	case 1:
-		b = container(r, res)
-	case 2:
-		b = enc(&proto.Result{RequestMessageID: x, Result: gz(body)})
+	in := &caseIn{MsgID: int64(r.U64()) | 1, Race: true, RaceID: x, Stream: "raced", OracleOnly: true}
+	var a, b []byte
+	switch r.Intn(10) {
+	case 0, 1, 2, 3: // results for one pending request
+		body := enc(&tg.User{ID: x, FirstName: string(r.Bytes(r.Range(1, 20)))})
+		a = enc(&proto.Result{RequestMessageID: x, Result: body})
+		switch r.Intn(4) {
+		case 0:
+			b = enc(&mt.BadMsgNotification{BadMsgID: x, BadMsgSeqno: 1, ErrorCode: 35})
+		case 1:
+			b = container(r, a)
+		case 2:
+			b = enc(&proto.Result{RequestMessageID: x, Result: gz(body)})
+		default:
+			b = a
+		}
+		in.Pending = []int64{x}
+		in.Stream = "raced-result"
+	case 4, 5:
+		a = enc(&mt.NewSessionCreated{FirstMsgID: int64(r.U64()), UniqueID: int64(r.U64()), ServerSalt: int64(r.U64())})
+		b = a
+		if r.Bool() {
+			b = enc(&mt.NewSessionCreated{FirstMsgID: int64(r.U64()), UniqueID: int64(r.U64()), ServerSalt: int64(r.U64())})
+		}
+		in.Stream = "raced-session"
+	case 6:
+		p := int64(r.Intn(6))
+		a = enc(&mt.Pong{MsgID: int64(r.U64()), PingID: p})
+		b = a
+		in.Pings = []int64{p}
+		in.Stream = "raced-pong"
+	case 7:
+		a = enc(&mt.FutureSalts{ReqMsgID: x, Now: 5, Salts: []mt.FutureSalt{{ValidSince: 1, ValidUntil: 1 << 29, Salt: int64(r.U64())}}})
+		b = a
+		in.Stream = "raced-salts"
+	case 8:
+		a = enc(&mt.BadServerSalt{BadMsgID: x, BadMsgSeqno: 1, ErrorCode: 48, NewServerSalt: int64(r.U64())})
+		b = a
+		in.Pending = []int64{x}
+		in.Stream = "raced-badsalt"
 	default:
-		b = res
+		a = enc(&mt.MsgsAck{MsgIDs: []int64{x}})
+		b = a
+		in.Pending = []int64{x}
+		in.Stream = "raced-ack"
 	}
-	return &caseIn{MsgID: int64(r.U64()) | 1, Hex: hex.EncodeToString(res), data: res, Other: hex.EncodeToString(b), other: b,
-		Race: true, RaceID: x, Stream: "raced", Pending: []int64{x}, OracleOnly: true}
+	in.Hex, in.data, in.Other, in.other = hex.EncodeToString(a), a, hex.EncodeToString(b), b
+	return in
 }
 
 func main() {
@@ -1141,8 +1211,14 @@ func main() {
 	for k := 0; k < c.N(120, 4000); k++ {
 		h.one(interleaved(c.Rng), false)
 	}
-	for k := 0; k < c.N(400, 10000); k++ {
-		h.one(raced(c.Rng), false)
+	{
+		want, maxRounds, t0 := int64(c.N(2*4000, 2*30000)), c.N(30000, 200000), time.Now()
+		rounds := 0
+		for metCount.Load() < want && rounds < maxRounds && time.Since(t0) < time.Duration(c.N(40, 600))*time.Second {
+			h.one(raced(c.Rng), false)
+			rounds++
+		}
+		c.Count(fmt.Sprintf("raced:rounds=%d:meetings=%d", rounds, metCount.Load()/2))
 	}
 	// 2. generated service messages, their mutants
 	nGen := c.N(700, 20000)
